@@ -118,9 +118,15 @@ def model_cbc_encrypt(key, iv, data):
     last = sym.pack_expr(sym.byte_exprs(iv)) if iv is not None else z3.IntVal(0)
     out = b""
     for p in range(0, len(data), 16):
-        x = sym.pack_expr(sym.byte_exprs(data[p : p + 16]))
+        xs = sym.byte_exprs(data[p : p + 16])
+        x = sym.pack_expr(xs)
         outs = _fresh_bytes_from(lambda j, x=x, last=last: _CE[j](k, last, x), 16)
-        last = sym.pack_expr(outs)
+        with NoTracing():
+            c = sym.pack_expr(outs)
+            sp = context_statespace()
+            for j in range(16):
+                sp.add(_CD[j](k, last, c) == xs[j])
+        last = c
         out += _to_bytes(outs)
     return out
 
@@ -130,11 +136,20 @@ def model_cbc_decrypt(key, iv, data):
     last = sym.pack_expr(sym.byte_exprs(iv)) if iv is not None else z3.IntVal(0)
     out = b""
     for p in range(0, len(data), 16):
-        c = sym.pack_expr(sym.byte_exprs(data[p : p + 16]))
+        cs = sym.byte_exprs(data[p : p + 16])
+        c = sym.pack_expr(cs)
         outs = _fresh_bytes_from(lambda j, c=c, last=last: _CD[j](k, last, c), 16)
+        with NoTracing():
+            x = sym.pack_expr(outs)
+            sp = context_statespace()
+            for j in range(16):
+                sp.add(_CE[j](k, last, x) == cs[j])
         last = c
         out += _to_bytes(outs)
     return out
+
+
+CRC_FACTS = True
 
 
 def uf_crc(data, start_value=0xFFFF):
@@ -145,6 +160,10 @@ def uf_crc(data, start_value=0xFFFF):
             o = z3.Int(f"crc{sp.uniq()}")
             sp.add(o == _CRCSTEP(cur, e))
             sp.add(z3.And(o >= 0, o < 65536))
+            if CRC_FACTS:
+                # lemma proved on the real crc8404B by C15 (job fact:one-byte-nonzero):
+                # the CRC of a one-byte string from start value FFFF is never 0
+                sp.add(z3.Implies(cur == 65535, o != 0))
             cur = o
     return sym.from_expr(cur)
 
@@ -251,3 +270,39 @@ def install_sym_rng():
 
     crypto.register_random_bytes(rng)
     return rng
+
+
+# --- text layer bypass -------------------------------------------------------
+class Carrier:
+    """stands in for the text stream: carries (comments, binary) between the
+    real write_file and read_file bodies; the hex/comment text layer itself is
+    decided by the Engine C lemmas of C01"""
+
+    def __init__(self):
+        self.comments = None
+        self.raw = None
+        self.writes = 0
+
+
+def install_text_bypass():
+    from bec2format import bf3file as bf
+    from bec2format.bytes_reader import BytesReader
+
+    def write_bf3_format(bf3file, comments, rawdata):
+        bf3file.writes += 1
+        bf3file.comments = dict(comments)
+        bf3file.raw = rawdata
+
+    def parse_bf3_file(cls, bf3file):
+        return BytesReader(bf3file.raw, "BF3 files Binary Data"), dict(bf3file.comments or {})
+
+    bf.Bf3File.write_bf3_format = staticmethod(write_bf3_format)
+    bf.Bf3File.parse_bf3_file = classmethod(parse_bf3_file)
+
+
+def reset_log():
+    LOG["cbc_enc"] = 0
+    LOG["cbc_dec"] = 0
+    LOG["rng"] = []
+    LOG["keygen"] = []
+    LOG["mac"] = []
